@@ -65,11 +65,11 @@ void ir__ZNSt7__cxx1112basic_stringIcSt11char_traitsIcESaIcEE7reserveEm(char* s_
   s_dispose(s); s->p = tmp; s->u.cap = n;
 }
 /* exception constructors/destructors: the message is not modelled */
-void ir__ZNSt13runtime_errorC1ERKNSt7__cxx1112basic_stringIcSt11char_traitsIcESaIcEEE(char* e, char* s){ (void)e; (void)s; }
-void ir__ZNSt13runtime_errorC1EPKc(char* e, char* s){ (void)e; (void)s; }
+void ir__ZNSt13runtime_errorC1ERKNSt7__cxx1112basic_stringIcSt11char_traitsIcESaIcEEE(char* e, char* s){ (void)s; *(char***)e = vr_exc_vtable; }
+void ir__ZNSt13runtime_errorC1EPKc(char* e, char* s){ (void)s; *(char***)e = vr_exc_vtable; }
 void ir__ZNSt13runtime_errorD1Ev(char* e){ (void)e; }
-void ir__ZNSt11logic_errorC1ERKNSt7__cxx1112basic_stringIcSt11char_traitsIcESaIcEEE(char* e, char* s){ (void)e; (void)s; }
-void ir__ZNSt11logic_errorC1EPKc(char* e, char* s){ (void)e; (void)s; }
+void ir__ZNSt11logic_errorC1ERKNSt7__cxx1112basic_stringIcSt11char_traitsIcESaIcEEE(char* e, char* s){ (void)s; *(char***)e = vr_exc_vtable; }
+void ir__ZNSt11logic_errorC1EPKc(char* e, char* s){ (void)s; *(char***)e = vr_exc_vtable; }
 void ir__ZNSt11logic_errorD1Ev(char* e){ (void)e; }
 void ir__ZNSt12out_of_rangeD1Ev(char* e){ (void)e; }
 void ir__ZNSt9bad_allocD1Ev(char* e){ (void)e; }
